@@ -792,6 +792,17 @@ func (r *replicateChannelManager) waitChannel(sourceInfo *model.SourceCollection
 					r.channelLock.Unlock()
 					continue
 				}
+				// the offered channel may have been taken directly since it was offered: re-check the quota
+				var hasQuota bool
+				if channelHandler.sourceKey {
+					hasQuota = r.channelMapping.CheckKeyNotExist(sourceInfo.PChannel, targetChannel)
+				} else {
+					hasQuota = r.channelMapping.CheckKeyNotExist(targetChannel, targetInfo.PChannel)
+				}
+				if !hasQuota {
+					r.channelLock.Unlock()
+					continue
+				}
 				log.Info("success to get the new replicate channel",
 					zap.Bool("source_key", channelHandler.sourceKey),
 					zap.String("target_pchannel", targetChannel),
